@@ -72,6 +72,8 @@ var sodPolicy = []policyEntry{
 	// the pending (async) store and its per-type maps
 	{"objectStore.m@asyncw", pendingTable()},
 	{"objectMap.m@asyncw", byLock(lclass{2, 1})},
+	// the collection directories (files created, truncated, written, removed / opened, listed)
+	{"FS.dir", byHandle()},
 }
 
 func lookupPolicy(loc string) (rule, bool) {
